@@ -396,7 +396,8 @@ class BCRun(object):
                 self.log.append("badOp")
             else:
                 n = len(self.log)
-                self.world.clock.advance(float(q))
+                with time_limit():  # a zero-delay retry loop would never return
+                    self.world.clock.advance(float(q))
                 # a timer that fires logs nothing itself
                 assert n <= len(self.log)
         elif op == "bytes":
